@@ -132,7 +132,8 @@ pub fn generate(seed: u64, thorough: bool, sink: &mut Sink) -> Vec<String> {
                  Some(if r == 1 { (1, c) } else if c == 1 { (2, r) } else { (3, r * c) }) }
         "r" => Some((4, 0)),
         "T" => Some((5, rest.split('/').next().unwrap().parse().unwrap())),
-        "b" | "t" => Some((6, 0)),
+        "b" => Some((6, 0)),
+        "t" => Some((6, 2)),
         "v" | "c" => st.iter().find(|x| x.0 == rest).map(|x| (x.2, x.3)),
         _ => None,
       }
@@ -201,9 +202,13 @@ pub fn generate(seed: u64, thorough: bool, sink: &mut Sink) -> Vec<String> {
                 format!("F:{}:{}:{}", t.0, field, src) }
               None => if rng.chance(1, 3) { format!("F:{}:{}:n{}", any_name, if rng.chance(1, 2) { "a" } else { "b" }, rng.range(0, 9)) } else { format!("A:{}:{}", any_name, source(&mut rng, None, &st)) } } }
           _ => if alias_free { match pick_target(&mut rng, &|x| x.2 == 0) { Some(t) => format!("A:{}:n{}", t.0, rng.range(0, 9)), None => format!("A:{}:n{}", any_name, rng.range(0, 9)) } } else {
-            let tuples: Vec<&str> = st.iter().filter(|x| x.2 == 6).map(|x| x.0).collect();
-            let tn = if valid && !tuples.is_empty() { *rng.pick(&tuples) } else { any_name };
-            let (x, y) = if valid && fresh.len() >= 2 { (fresh[0], fresh[1]) } else { (*rng.pick(&names), *rng.pick(&names)) };
+            let tuples: Vec<&str> = st.iter().filter(|x| x.2 == 6 && x.3 == 2).map(|x| x.0).collect();
+            // an invalid destructure mostly still has a tuple on the right, so that what is wrong is a target:
+            // a name that is already defined (immutable or mutable), or the same name twice
+            let tn = if !tuples.is_empty() && (valid || rng.chance(3, 4)) { *rng.pick(&tuples) } else { any_name };
+            let (x, y) = if valid && fresh.len() >= 2 { (fresh[0], fresh[1]) }
+              else if !st.is_empty() && rng.chance(2, 3) { let d = rng.pick(&st).0; if rng.chance(1, 2) { (d, *rng.pick(&names)) } else { (*rng.pick(&names), d) } }
+              else { (*rng.pick(&names), *rng.pick(&names)) };
             if !st.iter().any(|z| z.0 == x) { st.push((x, true, 0, 1)); }
             if !st.iter().any(|z| z.0 == y) { st.push((y, true, 0, 1)); }
             format!("T:{},{}:{}", x, y, tn) },
@@ -226,6 +231,10 @@ pub fn generate(seed: u64, thorough: bool, sink: &mut Sink) -> Vec<String> {
     cases.push(format!("session\tD:1:a:m1x3/1,2,3;;I:a:1,7:{};;D:0:b:ca", v));
     cases.push(format!("session\tD:1:a:ra=1,b=2;;D:0:b:va;;F:a:a:n{};;F:a:b:n{}", v, v + 1));
     cases.push(format!("session\tD:1:a:T2/a=1,2/b=3,4;;D:0:c:n7;;F:a:b:m3x1/{},1,2;;F:a:a:m2x1/{},5;;F:c:a:n1", v, v));
+    // destructuring over names that exist already: rejected, and nothing changes
+    cases.push(format!("session\tD:0:a:n{};;D:0:c:t1,2;;T:a,b:c;;A:a:n7;;D:0:d:ca", v));
+    cases.push(format!("session\tD:1:a:n{};;D:0:c:t1,2;;T:b,a:c;;P:a:n1", v));
+    cases.push(format!("session\tD:0:c:t{},2;;T:a,b:c;;T:a,d:c;;T:d,d:c", v));
     sink.hit("pattern:sharing");
   }
   cases
